@@ -148,6 +148,21 @@ CHECKS = {
             "The embedded tables are the specification; three comment slips in crystal_structure.py (#X, #Th, #Lw) are "
             "corrected in the reader.",
             "DESIGN.md section 4 C20"),
+    "C11": ("Hypothesis search over component lists and rendered mixture strings (wt%/vol%, 13 units, layers, nested and "
+            "repeated groups) against a Fraction/float reference of the mass/volume proportions; string vs API differential",
+            "Generated mixtures by weight and volume are compared, after normalisation, with the composition computed from "
+            "component masses and densities; zero quantities, formula-unit scaling, density = total mass / total volume, "
+            "total_mass and thickness are checked; every string form is translated by the generator into the equivalent "
+            "API call and both must agree.",
+            "Component masses/densities are taken from the parsed components; only documented string forms are generated.",
+            "DESIGN.md section 4 C11"),
+    "C12": ("Hypothesis search over formulas with isotopes/ions, density routes (keyword, attribute, @d/@dn/@di), "
+            "substitutions and cell parameters against closed-form references",
+            "natural_density/density ratio from element masses with ion charges kept, inversion of the setter, single-atom "
+            "default, replace() atom map and mass-scaled density (None stays None), packing-factor volume and the lattice "
+            "cell volume formula are compared with independent closed forms.",
+            "Element/isotope masses and covalent radii are taken as served (C06/C20 tie them to the tables).",
+            "DESIGN.md section 4 C12"),
 }
 
 PENDING = {}
